@@ -140,6 +140,7 @@ def _extract_locked(cfg, outdir, repo, flags, tdir):
         "RUSTC_WORKSPACE_WRAPPER": DRIVER,
         "CARGO_TARGET_DIR": tdir,
         "CARGO_NET_OFFLINE": "true",
+        "CARGO_INCREMENTAL": "0",
         "VERIF_FACTS_OUT": out,
         "VERIF_FACTS_NONCE": nonce,
         "VERIF_FACTS_CONFIG": cfg,
@@ -169,7 +170,8 @@ def ensure_facts(configs, repo=None, verbose=False, jobs=None):
     if not os.path.exists(DRIVER):
         build_driver(verbose)
     th = tree_hash(repo)
-    outdir = os.path.join(CACHE, "facts", th)
+    fbase = os.environ.get("VERIF_FACTS_BASE") or os.path.join(CACHE, "facts")
+    outdir = os.path.join(fbase, th)
     os.makedirs(outdir, exist_ok=True)
     need = [c for c in configs if not os.path.exists(os.path.join(outdir, c + ".json.ok"))]
     res = {}
@@ -191,7 +193,8 @@ def ensure_facts(configs, repo=None, verbose=False, jobs=None):
         raise SystemExit(2)
     for c in configs:
         res[c] = os.path.join(outdir, c + ".json")
-    _gc(outdir)
+    if not os.environ.get("VERIF_FACTS_BASE"):
+        _gc(outdir)
     return res, th
 
 
@@ -202,8 +205,10 @@ def _gc(keep):
         ds = [os.path.join(base, d) for d in os.listdir(base)]
         ds = [d for d in ds if os.path.isdir(d) and d != keep]
         ds.sort(key=lambda d: os.path.getmtime(d), reverse=True)
+        now = time.time()
         for d in ds[5:]:
-            shutil.rmtree(d, ignore_errors=True)
+            if now - os.path.getmtime(d) > 900:   # never touch a directory another run may be filling
+                shutil.rmtree(d, ignore_errors=True)
     except OSError:
         pass
 
